@@ -32,6 +32,10 @@ PLACEMENTS = {
     "tuple": lambda at: "struct X(%s u8);" % at,
     "variant": lambda at: "enum X { A, B { %s a: u8 }, C(u8) }" % at,
     "variant_tuple": lambda at: "enum X { A(%s u8) }" % at,
+    # plain neighbours of the same type around the attributed field: a field is judged on its own attributes only
+    "named_after_plain": lambda at: "struct X { z: u8, %s a: u8, y: u8 }" % at,
+    "tuple_after_plain": lambda at: "struct X(u8, %s u8);" % at,
+    "variant_after_plain": lambda at: "enum X { A, B { z: u8, %s a: u8 }, C(u8) }" % at,
 }
 
 
